@@ -270,7 +270,9 @@ def classify_verdict(sr):
         return None
     err = sr.stderr or ""
     if "disjoint_set_impl.hpp" in err:
-        return ("dset", "dset-assert " + ("my_rank >= merging_rank" if "my_rank >= merging_rank" in err else "other"))
+        which = "my_rank >= merging_rank" if "my_rank >= merging_rank" in err else (
+            "my_rank == merging_rank" if "my_rank == merging_rank" in err else "other")
+        return ("dset", "dset-assert " + which)
     if sr.verdict.startswith("rank-failed") and "comm.ipp" in err:
         return ("foreign", None)
     if sr.verdict in ("livelock", "step-budget", "wall-timeout"):
